@@ -195,7 +195,7 @@ def nested_base(d, variant):
     idk = ID[d]
 
     def pre(x, a, b):
-        return small(x, 1, 2)
+        return small(x, 1, 2, 1)
 
     def body(x, a, b):
         leaf_in_dir = {"maximum": a}
